@@ -29,7 +29,7 @@ Theorem C11_quiescent_all_readable : forall H U PS, C11_hyps H U PS ->
 Proof. exact quiescent_all_readable_hyps. Qed.
 Print Assumptions C11_quiescent_all_readable.
 
-Theorem C11_restore_invisible_partial : forall H U PS, C11_hyps H U PS ->
+Theorem C11_stored_id_readable_in_every_state : forall H U PS, C11_hyps H U PS ->
   forall callss fs0 sched id,
   Jc H U PS (init_sys fs0) -> Forall (Forall (call_ok PS)) callss ->
   idx_nonempty id (init_sys fs0) ->
@@ -38,16 +38,16 @@ Theorem C11_restore_invisible_partial : forall H U PS, C11_hyps H U PS ->
     get_bytes H (sfiles s) id = Found d (H d) (Z.of_nat (length d)) tm' /\
     get_file (sfiles s) id = Found (DatP (H d)) (H d) (Z.of_nat (length d)) tm'.
 Proof. exact restore_invisible_partial_hyps. Qed.
-Print Assumptions C11_restore_invisible_partial.
+Print Assumptions C11_stored_id_readable_in_every_state.
 
-Theorem C11_lookup_is_some_put_partial : forall H U PS, C11_hyps H U PS ->
+Theorem C11_lookup_in_every_state_is_some_put : forall H U PS, C11_hyps H U PS ->
   forall callss fs0 sched id d out size tm,
   Jc H U PS (init_sys fs0) -> Forall (Forall (call_ok PS)) callss ->
   let s := snd (conc_run H callss fs0 sched) in
   get_bytes H (sfiles s) id = Found d out size tm ->
   exists tm', PS id d tm' /\ out = H d /\ size = Z.of_nat (length d).
 Proof. exact lookup_is_some_put_partial_hyps. Qed.
-Print Assumptions C11_lookup_is_some_put_partial.
+Print Assumptions C11_lookup_in_every_state_is_some_put.
 
 (* every completed Put has succeeded (no Put fails or misses because of the others) *)
 Theorem C11_puts_succeed : forall H U PS, C11_hyps H U PS ->
@@ -68,3 +68,32 @@ Theorem C11_lookup_is_some_put : forall H U PS, C11_hyps H U PS -> lookup_hyps H
   out = H d /\ exists tm', PS id d tm'.
 Proof. exact lookup_is_some_put_hyps. Qed.
 Print Assumptions C11_lookup_is_some_put.
+
+(* restore_invisible: an id stored beforehand whose Puts all carry the same content d0 (with
+   19-digit timestamps): every GetBytes and every GetFile of it, interleaved operation by
+   operation with any writers and served torn views of the entry being rewritten, finds d0 *)
+Theorem C11_restore_invisible : forall H U PS, C11_hyps H U PS ->
+  forall rid d0, (forall d tm, PS rid d tm -> d = d0 /\ (10 ^ 18 <= tm < 2 * 10 ^ 18)%Z) -> U d0 ->
+  forall callss fs0 sched,
+  Jc H U PS (init_sys fs0) -> Forall (Forall (call_ok PS)) callss ->
+  idx_nonempty rid (init_sys fs0) ->
+  forall i calls cl k r,
+  nth_error callss i = Some calls -> nth_error (fst (conc_run H callss fs0 sched)) i = Some cl ->
+  nth_error (results cl) k = Some r ->
+  (nth_error calls k = Some (CGetBytes rid) -> exists l, r = XBytes l /\ found_bytes H d0 l) /\
+  (nth_error calls k = Some (CGetFile rid) -> exists l, r = XFile l /\ found_file H d0 l).
+Proof. exact restore_invisible_hyps. Qed.
+Print Assumptions C11_restore_invisible.
+
+(* what GetFile guarantees under concurrency: the named file holds exactly a content some Put
+   stored for that very id, the reported OutputID is its hash and the reported size its length,
+   and the file keeps holding it *)
+Theorem C11_get_file_conc : forall H U PS, C11_hyps H U PS -> no_hybrid H U ->
+  forall callss fs0 sched,
+  Jc H U PS (init_sys fs0) -> Forall (Forall (call_ok PS)) callss ->
+  forall i calls cl k id l,
+  nth_error callss i = Some calls -> nth_error (fst (conc_run H callss fs0 sched)) i = Some cl ->
+  nth_error calls k = Some (CGetFile id) -> nth_error (results cl) k = Some (XFile l) ->
+  file_post H PS id l (snd (conc_run H callss fs0 sched)).
+Proof. exact get_file_conc_hyps. Qed.
+Print Assumptions C11_get_file_conc.
